@@ -130,22 +130,33 @@ theorem isTop_top (h2 : N.TopIsTop) : (top : FBN N).isTop = true := by
   simp [isTop, top, Prod2.setTop, Prod2.isTop, h2', SEnv.isTop, SEnv.top]
   rfl
 
-/-- the auxiliary components of a meet are stronger than those of each operand -/
-theorem inv_of_inv_meet {a b : FBN N} {s : CSt V} {p : Prod2 (FB V) N.toLDom}
-    (h : Inv (⟨p, a.lin.meet b.lin, a.bools.meet b.bools, a.unch.meet b.unch⟩ : FBN N) s) :
+/-- when both operands mark the same variables, the auxiliary components of `a & b` are stronger
+    than those of each operand -/
+theorem inv_of_inv_meet {a b : FBN N} {s : CSt V} {p : Prod2 (FB V) N.toLDom} (hs : sameUnch a b = true)
+    (h : Inv (⟨p, a.lin.meet b.lin, a.bools.meet b.bools, a.unch.join b.unch⟩ : FBN N) s) :
     Inv a s ∧ Inv b s := by
   obtain ⟨h1, h2, h3, hL, hB⟩ := h
-  simp only [SEnv.isBot_meet, DSet.isBot_meet, Bool.or_eq_false_iff] at h1 h2 h3
+  simp only [SEnv.isBot_meet, Bool.or_eq_false_iff] at h1 h2
+  have hs' := hs
+  unfold sameUnch at hs'
+  simp only [Bool.and_eq_true] at hs'
+  have h3' : a.unch.isBot = false ∧ b.unch.isBot = false := by
+    simp only [DSet.isBot_join, Bool.and_eq_false_iff] at h3
+    rcases h3 with h3 | h3
+    · exact ⟨h3, DSet.isBot_of_leq hs'.1 h3⟩
+    · exact ⟨DSet.isBot_of_leq hs'.2 h3, h3⟩
   have hu : ∀ c : K.C, (unchanged a.unch c = true ∨ unchanged b.unch c = true) →
-      unchanged (a.unch.meet b.unch) c = true := by
+      unchanged (a.unch.join b.unch) c = true := by
     intro c hc
     rw [unchanged_iff]
     intro v hv
-    rw [DSet.mem_meet]
+    rw [DSet.mem_join]
     rcases hc with hc | hc
-    · exact Or.inl ((unchanged_iff _ _).1 hc v hv)
-    · exact Or.inr ((unchanged_iff _ _).1 hc v hv)
-  refine ⟨⟨h1.1, h2.1, h3.1, ?_, ?_⟩, ⟨h1.2, h2.2, h3.2, ?_, ?_⟩⟩
+    · have := (unchanged_iff _ _).1 hc v hv
+      exact ⟨this, (mem_iff_of_sameUnch hs v).1 this⟩
+    · have := (unchanged_iff _ _).1 hc v hv
+      exact ⟨(mem_iff_of_sameUnch hs v).2 this, this⟩
+  refine ⟨⟨h1.1, h2.1, h3'.1, ?_, ?_⟩, ⟨h1.2, h2.2, h3'.2, ?_, ?_⟩⟩
   · intro k c hc hun
     exact hL k c (by simp only [SEnv.look_meet, DSet.mem_meet]; exact Or.inl hc) (hu c (Or.inl hun))
   · intro k k' hk
@@ -155,10 +166,15 @@ theorem inv_of_inv_meet {a b : FBN N} {s : CSt V} {p : Prod2 (FB V) N.toLDom}
   · intro k k' hk
     exact hB k k' (by simp only [SEnv.look_meet, DSet.mem_meet]; exact Or.inr hk)
 
+/-- the product component of `a & b` is below both products -/
+theorem meet_lower_prod (m2 : N.MeetLower) (t2 : N.TopSound) {a b : FBN N} (ha : a.prod.WF) (hb : b.prod.WF)
+    {s : CSt V} (h : γ (meet a b) s) : a.prod.γ s ∧ b.prod.γ s :=
+  Prod2.meet_lower fb_meetLower m2 fb_topSound t2 ha hb h.1
+
 theorem meet_lower (m2 : N.MeetLower) (t2 : N.TopSound) {a b : FBN N} (ha : a.prod.WF) (hb : b.prod.WF)
-    {s : CSt V} (h : γ (meet a b) s) : γ a s ∧ γ b s := by
-  have hp := Prod2.meet_lower fb_meetLower m2 fb_topSound t2 ha hb h.1
-  have hi := inv_of_inv_meet h.2
+    (hs : sameUnch a b = true) {s : CSt V} (h : γ (meet a b) s) : γ a s ∧ γ b s := by
+  have hp := meet_lower_prod m2 t2 ha hb h
+  have hi := inv_of_inv_meet hs h.2
   exact ⟨⟨hp.1, hi.1⟩, ⟨hp.2, hi.2⟩⟩
 
 end FBN
